@@ -21,29 +21,35 @@ def run(tier="quick", seed=0):
                  src_x=rng.randrange(256), src_y=rng.choice(edge8), data=rng.choice(payloads))
         k = rng.randrange(4)
         args = [rng.choice(edge32) if j < k else None for j in range(3)]
-        p = SCPPacket(cmd_rc=rng.choice(edge16), seq=rng.choice(edge16), arg1=args[0], arg2=args[1], arg3=args[2], **f)
-        b = p.bytestring
-        ev += 1
-        import types
-        want = types.SimpleNamespace(cmd_rc=p.cmd_rc, seq=p.seq, arg1=args[0], arg2=args[1], arg3=args[2], **f)   # the constructor's arguments
-        ok = S.ScpBytestring.ensures_documented_layout(want, b) and S.ScpBytestring.ensures_documented_layout(p, b)
-        r = SCPPacket.from_bytestring(b, n_args=k)
-        ok = ok and S.RoundtripScp.ensures_equal_sdp_fields(p, k, r) and S.RoundtripScp.ensures_equal_scp_fields(p, k, r) and r.data == p.data
-        # decoding arbitrary truncations with every n_args
-        for cut in range(14, min(len(b), 30) + 1):
-            for na in range(0, 4):
-                ev += 1
-                r2 = SCPPacket.from_bytestring(b[:cut], n_args=na)
-                ok = ok and S.ScpFromBytestring.ensures_takes_only_the_arguments_allowed_and_present(b[:cut], na, r2) \
-                    and S.ScpFromBytestring.ensures_rest_is_payload(b[:cut], na, r2) and S.ScpFromBytestring.ensures_header(b[:cut], na, r2)
-                distinct.add((cut, na, k))
-        q = SDPPacket(**f)
-        ev += 1
-        ok = ok and S.SdpBytestring.ensures_documented_layout(types.SimpleNamespace(**f), q.bytestring)
-        r3 = SDPPacket.from_bytestring(q.bytestring)
-        ok = ok and S.RoundtripSdp.ensures_equal_sdp_fields(q, r3) and r3.data == q.data
+        why = None
+        b = b""
+        try:
+            p = SCPPacket(cmd_rc=rng.choice(edge16), seq=rng.choice(edge16), arg1=args[0], arg2=args[1], arg3=args[2], **f)
+            b = p.bytestring
+            ev += 1
+            import types
+            want = types.SimpleNamespace(cmd_rc=p.cmd_rc, seq=p.seq, arg1=args[0], arg2=args[1], arg3=args[2], **f)   # the constructor's arguments
+            ok = S.ScpBytestring.ensures_documented_layout(want, b) and S.ScpBytestring.ensures_documented_layout(p, b)
+            r = SCPPacket.from_bytestring(b, n_args=k)
+            ok = ok and S.RoundtripScp.ensures_equal_sdp_fields(p, k, r) and S.RoundtripScp.ensures_equal_scp_fields(p, k, r) and r.data == p.data
+            # decoding arbitrary truncations with every n_args
+            for cut in range(14, min(len(b), 30) + 1):
+                for na in range(0, 4):
+                    ev += 1
+                    r2 = SCPPacket.from_bytestring(b[:cut], n_args=na)
+                    ok = ok and S.ScpFromBytestring.ensures_takes_only_the_arguments_allowed_and_present(b[:cut], na, r2) \
+                        and S.ScpFromBytestring.ensures_rest_is_payload(b[:cut], na, r2) and S.ScpFromBytestring.ensures_header(b[:cut], na, r2)
+                    distinct.add((cut, na, k))
+            q = SDPPacket(**f)
+            ev += 1
+            ok = ok and S.SdpBytestring.ensures_documented_layout(types.SimpleNamespace(**f), q.bytestring)
+            r3 = SDPPacket.from_bytestring(q.bytestring)
+            ok = ok and S.RoundtripSdp.ensures_equal_sdp_fields(q, r3) and r3.data == q.data
+        except Exception as e:      # noqa  (the real code raising, or a layout clause indexing past the bytes produced)
+            ok, why = False, "%s: %s" % (type(e).__name__, e)
         if not ok:
-            viol.append({"id": "pkt_%d" % i, "clause": "packet_contract", "inputs": {"fields": {k2: repr(v) for k2, v in f.items()}, "args": args}})
+            viol.append({"id": "pkt_%d" % i, "clause": "packet_contract", "why": why or "a contract clause is false on the bytes / packet the real code produced",
+                         "inputs": {"fields": {k2: repr(v) for k2, v in f.items()}, "args": args}})
         if i < 2:
             samples.append({"packet": {k2: repr(v) for k2, v in f.items()}, "args": args, "bytes": b.hex()})
     return {"name": "c15_packets", "evaluations": ev, "distinct_nontrivial": len(distinct),
